@@ -18,11 +18,6 @@ public:
     std::vector<PTRef> get_top_level_flas() const;
     unsigned getNoOfPartitions() const { return get_top_level_flas().size(); }
     void transferPartitionMembership(PTRef old, PTRef new_ptref);
-    // Forget the formulas filed under the partitions for which the predicate holds (their assertions were popped)
-    template<typename Pred> void removePartitions(Pred isRemoved) {
-        std::erase_if(top_level_flas, [&](auto const & entry) { return isRemoved(entry.second); });
-        std::erase_if(other_flas, [&](auto const & entry) { return isRemoved(entry.second); });
-    }
     int getPartitionIndex(PTRef ref) const;
 
 private:
